@@ -4,7 +4,7 @@
    instance (Z standing for tenths: 10 = 1.0).  Each witness is replayed on the real code by the check
    (known_findings.d/C04.json). *)
 From Coq Require Import List NArith ZArith PArith Bool.
-From PV Require Import C04.Cst C04.Lcs C04.Model C04.ModelOmega C04.Demo.
+From PV Require Import C04.Cst C04.Lcs C04.Model C04.ModelOmega C04.ModelCreate C04.Demo.
 Import ListNotations.
 Local Open Scope Z_scope.
 
@@ -238,3 +238,14 @@ Proof.
   exists [w_ka], [(T [75; 65]%nat, P 40 MInf PInf false)]. eexists. eexists. eexists. exists (T [75; 65]%nat), (T [88]%nat).
   repeat split; vm_compute; reflexivity.
 Qed.
+
+(* ================================================================ create_omega_single, IOV *)
+(* a later occasion of an IOV eta whose variance parameter is fixed: the code composes
+   '$OMEGA  BLOCK(1) SAME FIX', which the omega grammar refuses - the model returns the parse error, for every
+   value, name and eta number (finding C04-OMEGA-IOV-SAME-FIX); unfixed it is the SAME record *)
+Theorem omega_refuted_iov_same_fix :
+  forall (sigma : bool) (v : Z) (name : text) (eta : nat),
+    create_single_root Z demo sigma SIovSame v true name eta = Err EParse
+    /\ exists root, create_single_root Z demo sigma SIovSame v false name eta = Ok root
+                    /\ str root = T [32; 32; 66; 76; 79; 67; 75; 40; 49; 41; 32; 83; 65; 77; 69; 10]%nat.
+Proof. intros. split; [reflexivity|]. eexists. split; [reflexivity|]. vm_compute. reflexivity. Qed.
